@@ -194,6 +194,10 @@ func runR35(c *Ctx) {
 			if isNamed(callee.Signature.Results().At(0).Type(), rel(sp), "Matcher") {
 				return true
 			}
+			// a helper that compiles the expression (and wraps the error)
+			if pt, ok := callee.Signature.Results().At(0).Type().(*types.Pointer); ok && isNamed(pt.Elem(), "regexp", "Regexp") {
+				return true
+			}
 			// classification helpers: booleans/integers in, one boolean/integer out (which kind of matcher)
 			basic := func(t types.Type) bool {
 				b, ok := t.Underlying().(*types.Basic)
@@ -315,6 +319,30 @@ func runR35(c *Ctx) {
 				}
 			})
 			if !found {
+				// the flag travels in a parameter object (likeSpec{pattern, caseSensitive: true}): follow the matcher
+				// constructor's flag argument back to the constants it can hold when reached from this kernel
+				if ctor := p.anchorMatcherCtor(); ctor != nil {
+					eachInstr(fn, func(in ssa.Instruction) {
+						st, ok := in.(*ssa.Store)
+						if !ok {
+							return
+						}
+						if fa, ok := st.Addr.(*ssa.FieldAddr); ok {
+							if bt, ok := deref(fa.Type()).Underlying().(*types.Basic); ok && bt.Kind() == types.Bool {
+								if isConstBool(st.Val, true) || isConstBool(st.Val, false) {
+									found = true
+									if isConstBool(st.Val, wantCS) {
+										c.ok(key, p.instrPos(st), fmt.Sprintf("caseSensitive=%v (in the parameter object)", wantCS))
+									} else {
+										c.bad(key, p.instrPos(st), fmt.Sprintf("%s passes caseSensitive=%v", name, !wantCS))
+									}
+								}
+							}
+						}
+					})
+				}
+			}
+			if !found {
 				c.undecided(key, p.pos(fn.Pos()), "no constant case flag passed on")
 			}
 			// every answer comes from the one matcher constructor: no path reports success without NewMatcher
@@ -364,29 +392,10 @@ func runR35(c *Ctx) {
 	// function is called inside its package the argument bound to that parameter is a parameter again - no rewriting
 	// on the way (an `expanded` pattern changes which cells a literal % or a metacharacter matches)
 	if ctor := p.anchorMatcherCtor(); ctor != nil {
-		var fromParam func(v ssa.Value, fn *ssa.Function, d int) string
-		fromParam = func(v ssa.Value, fn *ssa.Function, d int) string {
-			prm, ok := v.(*ssa.Parameter)
-			if !ok {
-				return describe(v)
-			}
-			if d > 3 {
-				return ""
-			}
-			pi := -1
-			for i, q := range fn.Params {
-				if q == prm {
-					pi = i
-				}
-			}
-			sites, _ := p.staticCallSites(fn)
-			for _, s := range sites {
-				caller := s.Parent()
-				if caller.Pkg != fn.Pkg || pi < 0 || pi >= len(s.Common().Args) {
-					continue
-				}
-				if bad := fromParam(s.Common().Args[pi], caller, d+1); bad != "" {
-					return bad
+		fromParam := func(v ssa.Value, fn *ssa.Function, d int) string {
+			for _, o := range p.valueOrigins(v, fn, 0) {
+				if _, ok := o.(*ssa.Parameter); !ok {
+					return describe(o)
 				}
 			}
 			return ""
